@@ -105,12 +105,10 @@ def run(F, R):
     R.check({"fetch", "fetched"} <= rs, "C25.R4", "satisfied:fetched>=fetch", f"satisfied() reads {sorted(rs)}", st.loc(), dict(), nontrivial=False)
     # ---- R5
     bq = F.one("bind_query", file="src/planner/binder.rs")
-    sites = []
-    for g in F.family(bq.path):
-        for c in g.calls():
-            if c.name.endswith("Binder::<'a>::expr_to_usize") or c.name.rsplit("::", 1)[-1] == "expr_to_usize":
-                sites.append((g, c))
-    R.floor("C25.R5", "expr_to_usize calls in bind_query", len(sites), 2)
+    e2u = F.one("expr_to_usize", file="src/planner/binder.rs")
+    # every use of the operand converter in the binder (the query-binding function has been split before: do not anchor on its name)
+    sites = [(c.fn, c) for c in F.callers_of(e2u.path) if c.fn.file == "src/planner/binder.rs"]
+    R.floor("C25.R5", "expr_to_usize calls in the binder", len(sites), 2)
     bad = []
     for g, c in sites:
         tags = result_consumers(g, c)
